@@ -169,12 +169,12 @@ func (op *Op) run() {
 		}
 		just := common.Checkpoint{Epoch: common.Epoch(op.J.Epoch), Root: mkRoot(op.J.Root)}
 		fin := common.Checkpoint{Epoch: common.Epoch(op.F.Epoch), Root: mkRoot(op.F.Root)}
-		t.arr = proto.NewProtoArray(mkRoot(op.Parent), mkRoot(op.Root), common.Slot(op.Slot), just.Epoch, fin.Epoch, sink)
-		fc, err := forkchoice.NewForkChoice(spec, fin, just, mkRoot(op.Root), common.Slot(op.Slot), t.arr,
-			proto.NewProtoVoteStore(spec), gweis(op.Bal))
+		fc, err := proto.NewProtoForkChoice(spec, fin, just, mkRoot(op.Root), common.Slot(op.Slot), mkRoot(op.Parent),
+			gweis(op.Bal), sink)
 		op.Ret = &Ret{Ok: b2i(err == nil)}
 		if err == nil {
 			t.fc = fc
+			t.arr = fc.(*forkchoice.ProtoForkChoice).VerifGraph().(*proto.ProtoArray)
 		}
 	case "ProcessSlot":
 		if op.G == 0 {
